@@ -440,7 +440,7 @@ func (d *seqDriver) enumerate(n, maxPending, depth int, sample int64) bool {
 			x := idx
 			for k := 0; k < depth; k++ {
 				o := alpha[x%a]
-				o.V = uint8(k + int(o.K)) // the kind of response frame varies with position and id
+				o.V = uint8(int(idx%8) + k + int(o.K)) // the kind of response frame varies with history, position and id
 				r.apply(o)
 				x /= a
 			}
@@ -579,7 +579,7 @@ func (g *prngGen) explicitID0() int16 {
 
 func (g *prngGen) randomOp(sendShare int, mode int) op {
 	o := g.randomOp0(sendShare, mode)
-	o.V = uint8(g.rng.Intn(6))
+	o.V = uint8(g.rng.Intn(nFinalVariants))
 	return o
 }
 
@@ -660,7 +660,7 @@ func (g *prngGen) drain(limit int) {
 	g.r.phase = "drain"
 	for k := 0; k < limit && len(g.r.order) > 0; k++ {
 		id, _ := g.randUnanswered()
-		g.r.apply(op{Kind: opDeliverFinal, K: id, V: uint8(g.rng.Intn(6))})
+		g.r.apply(op{Kind: opDeliverFinal, K: id, V: uint8(g.rng.Intn(nFinalVariants))})
 	}
 }
 
